@@ -146,7 +146,7 @@ func cmdRun(args []string) int {
 	prop := args[0]
 	fs.Parse(args[1:])
 	if *workers == 0 {
-		*workers = 6
+		*workers = 12
 		if *tier == "thorough" {
 			*workers = 16
 		}
